@@ -34,6 +34,7 @@ import (
 )
 
 var realStdout *os.File
+var fullPrepare bool
 
 func main() {
 	mode := flag.String("mode", "matrix", "matrix | hist | list")
@@ -44,6 +45,7 @@ func main() {
 	seed := flag.Int64("seed", 1, "seed")
 	roles := flag.String("roles", "none,R,RW,Admin,SysAdmin", "roles handled by this process")
 	kinds := flag.String("kinds", "session,token", "authentication kinds")
+	flag.BoolVar(&fullPrepare, "fullprepare", false, "run the administrator-side preparation of a request also in cells whose session is invalid")
 	flag.Parse()
 	if *dir == "" {
 		vh.Fatalf("-dir is required")
@@ -88,6 +90,8 @@ func main() {
 	}
 	w.closeTrace()
 	w.stop()
+	res.Extra["badLines"] = w.badLines
+	res.Extra["traceLines"] = w.traceN
 	pprof.StopCPUProfile()
 	os.Stdout = realStdout
 	res.Emit()
@@ -117,11 +121,19 @@ type world struct {
 	exportedTx []byte
 	full       *snapshot // last full read of database list, settings and users
 	forceFull  bool
+	lastDetail []string
+	badLines   []int
 }
 
-const (
+// the fixture databases; a database that a call managed to delete cannot be created again under the same name
+// (the server keeps the deleted entry in its list), so its successor gets a new name
+var (
 	dbOwn   = "dbown"
 	dbOther = "dbother"
+	dbGen   = 0
+)
+
+const (
 	dbSys   = "systemdb"
 	dbDef   = "defaultdb"
 	adminPw = "immudb"
